@@ -552,7 +552,7 @@ func checkLegacyMigrated(res *hx.Result, src, migrated []byte, ld *ldef, fail fu
 		return "", nil, false
 	}
 	if rerr != nil {
-		fail("legacy-unreadable-after-migration", "the migrated legacy definition does not load: "+classifyErr(rerr))
+		fail(unreadableLegacyClass(rerr), "the legacy reader accepted the definition, the migrated definition does not load: "+rerr.Error())
 		return "", nil, false
 	}
 	uuid, g := flowGraph(flow)
